@@ -18,6 +18,7 @@ LARGE = 240.0
 class TimersCtx(BaseCtx):
     escape_is_violation = False
     prop = "C03"
+    exceptions_end_run = False    # an exception escaping from a callback is logged by the reactor; the timers' contract stays
 
     def __init__(self, cfg, tier):
         BaseCtx.__init__(self, cfg, tier)
@@ -193,7 +194,9 @@ class TimersCtx(BaseCtx):
         if self.cfg.get("rr_arrivals") and rng.chance(0.2):
             # a ROUTE-REFRESH (any subtype, either code point) is not an arrival for the hold timer, and the
             # messages after it are
-            self.next_arrival = self.world.now() + rng.pick([0.0, 0.5])
+            if rng.chance(0.6):
+                self.next_arrival = self.world.now() + rng.pick([0.0, 0.5])
+            # (else: the ROUTE-REFRESH is the last thing the peer says before the next gap or the final silence)
             self.stats["gen:route_refresh_arrival"] += 1
             return ["send", self.k(), base.gen_rr(rng).hex(), []]
         if self.cfg.get("malformed_updates") and rng.chance(0.3):
@@ -204,6 +207,11 @@ class TimersCtx(BaseCtx):
                 body = hostile.mutate(rng, body)
             self.stats["gen:malformed_update_arrival"] += 1
             return ["send", self.k(), rp.frame(rp.UPDATE, body[:4000] if len(body) >= 4 else body + bytes(4)).hex(), []]
+        if self.cfg.get("rest_reads") and rng.chance(0.25):
+            # a monitoring system reads the statistics / the state over REST: no arrival, nothing changes
+            self.next_arrival = self.world.now() + rng.pick([0.0, 0.5, self.H / 6.0 if self.H else 1.0])
+            self.stats["gen:rest_read_in_session"] += 1
+            return ["rest", "GET", base.URL + rng.pick(["statistic", "state", "statistic"]), "ok"]
         if self.cfg.get("rest_sends") and rng.chance(0.25):
             # an operator-originated UPDATE: it may stand in for a KEEPALIVE, it must not suppress one
             self.next_arrival = self.world.now() + rng.pick([0.0, 0.5, self.H / 6.0 if self.H else 1.0])
@@ -443,7 +451,7 @@ class TimersProfile(BaseProfile):
             "KEEPALIVE/UPDATE gaps from {H-e,H,H+e,H/3,0,H/2,3H,...} in OpenConfirm and Established (or total silence in "
             "OpenSent; 20 % of the runs mix in well-framed UPDATEs with malformed bodies - still UPDATEs for the hold timer -, 10 % let the application raise when told that the session is established, 15 % deliver some messages in two pieces - the first piece is not an arrival -, 15 % step the wall clock while the reactor's time base stays), all timers fired at their virtual instants with explicit tie order; non-trivial = reached "
             "Established or observed an expiry; distinct = distinct (phase, op, outputs, arrivals) sequence; 6 % of the runs begin with a connection that the agent's own hold timer ended; partial-frame runs also deliver a complete message plus most of a 4096-octet UPDATE in one segment")
-    probes = ["gen:message_plus_most_of_a_big_one", "two_session_runs", "gen:partial_frame_arrival", "op:clockstep", "gen:malformed_update_arrival", "established_refused_by_application(tolerated)", "gen:late_close_of_earlier_connection", "rest_update_sent", "second_open_in_openconfirm", "two_session_runs", "gen:tie_timer_vs_arrival", "same_instant_timers", "expiry_negotiated_hold", "expiry_large_hold",
+    probes = ["gen:rest_read_in_session", "gen:message_plus_most_of_a_big_one", "two_session_runs", "gen:partial_frame_arrival", "op:clockstep", "gen:malformed_update_arrival", "established_refused_by_application(tolerated)", "gen:late_close_of_earlier_connection", "rest_update_sent", "second_open_in_openconfirm", "two_session_runs", "gen:tie_timer_vs_arrival", "same_instant_timers", "expiry_negotiated_hold", "expiry_large_hold",
               "periodic_keepalive", "arrival_restarts_hold", "closed_after_expiry"]
 
     def gen_config(self, rng, idx, tier):
@@ -479,6 +487,7 @@ class TimersProfile(BaseProfile):
         if cfg.get("peer_open0") and rng.chance(0.3):
             cfg["prelude_late_close"] = True
         cfg["rest_sends"] = rng.chance(0.15)
+        cfg["rest_reads"] = rng.chance(0.15)
         cfg["malformed_updates"] = rng.chance(0.2)
         cfg["partial_frames"] = rng.chance(0.15)
         cfg["rr_arrivals"] = rng.chance(0.15)
